@@ -534,7 +534,7 @@ struct Init {
             p.rule = "one seed = one history of create/open/close/abort over 1..3 files that are open at the same time, every API family in between, calls on stale / negative / huge / unused ids while other files are open, close with pending nonblocking requests; odd seeds additionally inject 1..2 faults (MPI-IO data errors, open/close/sync/set_view/delete errors) at random positions with relaxed return-code oracles; oracle: NC_EBADID / NC_EPENDING as documented, no crash, files independent (per-file model), and when the last file is closed zero live library heap blocks, MPI datatypes, communicators, info objects, file handles, requests and file descriptors on every rank; non-trivial = >= 2 files or a bad-id call or a fired fault";
             p.fault_kinds = {"io-error", "open-error", "close-error", "sync-error", "setview-error", "delete-error"};
             p.gen = [](uint64_t seed, bool th) {
-                GenParams g; g.multi_file = true; g.badids = true; g.close_pending = true; g.nonblocking = true; g.redef = true; g.fill = true; g.max_np = 3; g.max_data_ops = th ? 14 : 8; g.max_dimlen = 4; g.knobs = true;
+                GenParams g; g.multi_file = true; g.badids = true; g.close_pending = true; g.nonblocking = true; g.redef = true; g.fill = true; g.max_np = 3; g.max_data_ops = th ? 14 : 8; g.max_dimlen = 4; g.knobs = true; g.hints = (seed % 3 == 0);   // incl. intra-node aggregation state
                 Program q = gen_program(seed, g, "C17");
                 if (seed % 2) {
                     sim::Rng rng(seed * 7919 + 13); int nf = 1 + (int)rng.below(2);
@@ -565,7 +565,7 @@ struct Init {
             p.technique = "deterministic simulation with fault injection: single-fault enumeration over every data-transfer MPI-IO call of sampled programs";
             p.rule = "each seed generates one program (header write, numrecs update, data movement at redefinition, fill, blocking / nonblocking data I/O, independent mode, reopen); it is run fault-free recording every MPI-IO data-transfer call that moves >= 1 byte (rank, op, ordinal, library call site); then one run per (call, error class in {IO, NO_SPACE, QUOTA, ACCESS, READ_ONLY, FILE, OTHER}) injects exactly that fault; oracle: the API call executing on the faulted rank (or the wait completing the request / a status) returns an error, every rank returns from the call, no collective mismatch; non-trivial = the fault fired; distinct by (program shape, fault position, class, interleaving)";
             p.fault_kinds = {"io-error"};
-            p.gen = [](uint64_t seed, bool th) { GenParams g; g.max_np = 4; g.redef = true; g.fill = true; g.nonblocking = true; g.max_data_ops = th ? 14 : 8; g.knobs = true; g.hints = (seed % 3 == 0); g.max_dimlen = 4; g.reopen = true; g.syncpoint_after_write = false; return gen_program(seed, g, "C11"); };
+            p.gen = [](uint64_t seed, bool th) { GenParams g; g.max_np = 4; g.redef = true; g.fill = true; g.nonblocking = true; g.max_data_ops = th ? 14 : 8; g.knobs = true; g.hints = (seed % 3 == 0); g.meta_heavy = (seed % 2 == 0); /* data-mode header rewrites */ g.max_dimlen = 4; g.reopen = true; g.syncpoint_after_write = false; return gen_program(seed, g, "C11"); };
             p.check = [](Program &q) {
                 RunOpts o;
                 if (q.faults.empty()) { o.record_iocalls = true; return run_program(q, o); }
